@@ -359,6 +359,8 @@ def run(ctx: Ctx) -> None:
     ctx.call(graph_lookups, "8")
     ctx.call(register_cells, "1")
     ctx.call(GR.bridge_table, "2")
+    # direction matters: the freshly created node adopts the registers of the existing ones (the reverse empties their visit history)
+    ctx.call(GR.bridging_sites, "2s")
     ctx.call(additive_trie, "3")
     ctx.call(lookup_siblings, "4")
     ctx.call(node_primitives, "6")
